@@ -8,7 +8,10 @@ import (
 	"math"
 	"math/big"
 	"os"
+	"path/filepath"
 	"sort"
+	"sync/atomic"
+	"syscall"
 	"time"
 
 	"github.com/ozontech/seq-db/frac/processor"
@@ -62,6 +65,8 @@ type childReq struct {
 	Spec        searchSpec `json:"spec"`
 	Wait        bool       `json:"wait,omitempty"`
 	LoadOnly    bool       `json:"load_only,omitempty"` // load the persisted requests, do not resume them
+	Gate        bool       `json:"gate,omitempty"`      // start with the mapping provider blocked
+	Action      string     `json:"action,omitempty"`
 	PBHex       string     `json:"pb,omitempty"`        // a protobuf message of the store API
 	TimeoutMs   int        `json:"timeout_ms,omitempty"`
 }
@@ -161,9 +166,30 @@ func canonQPR(q *seq.QPR) *cQPR {
 	return c
 }
 
+// mappingProvider is the store's MappingProvider. With a closed gate GetMapping blocks: a resumed
+// request calls it (the query is re-parsed) after it has listed its processed fractions and while it
+// holds the searcher's only parallelism slot, so the worker can be held at "k partial results exist".
 type mappingProvider struct{ m seq.Mapping }
 
-func (p mappingProvider) GetMapping() seq.Mapping { return p.m }
+var (
+	gateClosed  atomic.Bool
+	gateEntered atomic.Int32
+	gateCh      = make(chan struct{})
+)
+
+func (p mappingProvider) GetMapping() seq.Mapping {
+	if gateClosed.Load() {
+		gateEntered.Add(1)
+		<-gateCh
+	}
+	return p.m
+}
+
+var (
+	bgFetch   chan childResp
+	pipeFD    = -1
+	pipePath  string
+)
 
 func keywordMapping(fields []string) seq.Mapping {
 	m := seq.Mapping{}
@@ -287,6 +313,7 @@ func registerChildOps() {
 			return storectl.Resp{}, fmt.Errorf("store not open")
 		}
 		asyncDir, allFields = e.AsyncDir, e.Spec.Fields
+		gateClosed.Store(e.Gate)
 		if e.LoadOnly {
 			as, err := fracmanager.VerifC19LoadAsync(fracmanager.AsyncSearcherConfig{DataDir: e.AsyncDir, Parallelism: e.Parallelism},
 				mappingProvider{keywordMapping(e.Spec.Fields)}, c.FM)
@@ -307,6 +334,87 @@ func registerChildOps() {
 			return storectl.Resp{}, err
 		}
 		return answer(childResp{}), nil
+	})
+	// the gate of the mapping provider: wait until the resumed worker is blocked in it / let it go
+	storectl.Register("c19.gate", func(c *storectl.Child, r storectl.Req) (storectl.Resp, error) {
+		e, err := decode(r)
+		if err != nil {
+			return storectl.Resp{}, err
+		}
+		switch e.Action {
+		case "wait_entered":
+			deadline := time.Now().Add(time.Duration(e.TimeoutMs) * time.Millisecond)
+			for gateEntered.Load() == 0 && time.Now().Before(deadline) {
+				time.Sleep(time.Millisecond)
+			}
+			return answer(childResp{Found: gateEntered.Load() > 0}), nil
+		case "open":
+			gateClosed.Store(false)
+			close(gateCh)
+			return answer(childResp{}), nil
+		}
+		return storectl.Resp{}, fmt.Errorf("unknown gate action")
+	})
+	// a named pipe <id>.~pipe.qpr among the files FetchSearchResult lists: the fetch blocks on it until
+	// the pipe is released
+	storectl.Register("c19.pipe", func(c *storectl.Child, r storectl.Req) (storectl.Resp, error) {
+		e, err := decode(r)
+		if err != nil {
+			return storectl.Resp{}, err
+		}
+		switch e.Action {
+		case "make":
+			pipePath = filepath.Join(asyncDir, e.Spec.ID+".~pipe.qpr")
+			return answer(childResp{}), syscall.Mkfifo(pipePath, 0o644)
+		case "wait_reader": // succeeds once the fetch has the pipe open for reading (its file list is fixed then)
+			deadline := time.Now().Add(time.Duration(e.TimeoutMs) * time.Millisecond)
+			for time.Now().Before(deadline) {
+				fd, err := syscall.Open(pipePath, syscall.O_WRONLY|syscall.O_NONBLOCK, 0)
+				if err == nil {
+					pipeFD = fd
+					return answer(childResp{Found: true}), nil
+				}
+				time.Sleep(time.Millisecond)
+			}
+			return answer(childResp{Found: false}), nil
+		case "release":
+			os.Remove(pipePath)
+			if pipeFD >= 0 {
+				syscall.Close(pipeFD)
+				pipeFD = -1
+			}
+			return answer(childResp{}), nil
+		}
+		return storectl.Resp{}, fmt.Errorf("unknown pipe action")
+	})
+	// FetchSearchResult in the background / its answer
+	storectl.Register("c19.fetch_bg", func(c *storectl.Child, r storectl.Req) (storectl.Resp, error) {
+		e, err := decode(r)
+		if err != nil {
+			return storectl.Resp{}, err
+		}
+		bgFetch = make(chan childResp, 1)
+		go func() {
+			resp, ok := asyncSearcher.FetchSearchResult(fracmanager.FetchSearchResultRequest{ID: e.Spec.ID})
+			if !ok {
+				bgFetch <- childResp{Found: false}
+				return
+			}
+			bgFetch <- childResp{Found: true, Done: resp.Done, QPR: canonQPR(&resp.QPR)}
+		}()
+		return answer(childResp{}), nil
+	})
+	storectl.Register("c19.fetch_join", func(c *storectl.Child, r storectl.Req) (storectl.Resp, error) {
+		e, err := decode(r)
+		if err != nil {
+			return storectl.Resp{}, err
+		}
+		select {
+		case x := <-bgFetch:
+			return answer(x), nil
+		case <-time.After(time.Duration(e.TimeoutMs) * time.Millisecond):
+			return storectl.Resp{}, fmt.Errorf("background fetch did not return")
+		}
 	})
 	// the real gRPC handlers of the store (storeapi/grpc_async_search.go) on the child's searcher
 	storectl.Register("c19.pbstart", func(c *storectl.Child, r storectl.Req) (storectl.Resp, error) {
